@@ -1,25 +1,7 @@
 (** C04 — lemmas. *)
 From Coq Require Import List Arith NArith ZArith Bool Lia Permutation.
-From SV Require Import Common.Trie C04.Gen C04.Model.
+From SV Require Import Common.Trie Common.TrieProofs C04.Gen C04.Model.
 Import ListNotations.
-
-Lemma split_last_app c l p s : split_last c l = Some (p, s) -> l = p ++ s.
-Proof.
-  revert p s; induction l as [|x r IH]; cbn [split_last]; intros p s H; [discriminate|].
-  destruct (split_last c r) as [[p' s']|] eqn:E.
-  - inversion H; subst. cbn. f_equal. apply IH; reflexivity.
-  - destruct (N.eqb x c); inversion H; subst; reflexivity.
-Qed.
-
-Lemma beq_eq a b : beq a b = true <-> a = b.
-Proof.
-  revert b; induction a as [|x a IH]; destruct b as [|y b]; cbn [beq]; try (split; congruence).
-  rewrite andb_true_iff, N.eqb_eq, IH. split; [intros [-> ->]; reflexivity | intros H; inversion H; auto].
-Qed.
-Lemma beq_refl a : beq a a = true.
-Proof. apply beq_eq; reflexivity. Qed.
-Lemma beq_neq a b : beq a b = false <-> a <> b.
-Proof. rewrite <- beq_eq. destruct (beq a b); split; congruence. Qed.
 
 (** the constants read from the source are the ones the proofs need *)
 Lemma gen_arms : path_eq_arm_prefix = true /\ path_eq_arm_regex = true /\ path_eq_arm_equals = true.
@@ -226,3 +208,552 @@ Section Sel.
     - exfalso. apply NE. f_equal. f_equal. congruence.
   Qed.
 End Sel.
+
+(** ** Refinement of the router to a configuration
+
+    The abstract configuration keeps the pre and post lists as they are (their
+    order is part of the documented semantics) and, for the tree, one rule
+    list per hostname ([s_tree], a function: [[]] = no frontend on that
+    host).  Nothing of the trie's shape, nor of the order in which hostnames
+    were added, is left in it. *)
+Definition upd (T : bytes -> leafv) (k : bytes) (v : leafv) : bytes -> leafv :=
+  fun k' => if beq k' k then v else T k'.
+
+Record astate := mkast { s_pre : flat; s_tree : bytes -> leafv; s_post : flat }.
+Definition empty_astate : astate := mkast [] (fun _ => []) [].
+
+Definition a_add_tree (T : bytes -> leafv) (host : bytes) p m r : (bytes -> leafv) * bool :=
+  if existsb (same_leaf p m) (T host) then (T, false) else (upd T host (T host ++ [(p, m, r)]), true).
+Definition a_del_tree (T : bytes -> leafv) (host : bytes) p m : bytes -> leafv :=
+  upd T host (filter (fun e => negb (same_leaf p m e)) (T host)).
+
+Definition nonempty (l : leafv) : option leafv := if is_nil l then None else Some l.
+
+Section Refine.
+  Variable re_ok : bytes -> bool.
+  Variable re_match : bytes -> bytes -> bool.
+
+  Definition a_add (S : astate) (fr : frontend) : astate * opres :=
+    match parse_path re_ok (f_pkind fr) (f_pval fr) with
+    | None => (S, OErrPath)
+    | Some p =>
+      match parse_domain re_ok (f_host fr) with
+      | DErr => (S, OErrDomain)
+      | DOk d =>
+        let r := mk_route fr in
+        let m := f_method fr in
+        match f_pos fr with
+        | Pre => let '(l, b) := add_flat (s_pre S) d p m r in
+                 (mkast l (s_tree S) (s_post S), if b then OOk else OErrAdd)
+        | Post => let '(l, b) := add_flat (s_post S) d p m r in
+                  (mkast (s_pre S) (s_tree S) l, if b then OOk else OErrAdd)
+        | Tree => let '(T, b) := a_add_tree (s_tree S) (f_host fr) p m r in
+                  (mkast (s_pre S) T (s_post S), if b then OOk else OErrAdd)
+        end
+      end
+    end.
+
+  Definition a_del (S : astate) (fr : frontend) : astate * opres :=
+    match parse_path re_ok (f_pkind fr) (f_pval fr) with
+    | None => (S, OErrPath)
+    | Some p =>
+      let m := f_method fr in
+      match f_pos fr with
+      | Tree => (mkast (s_pre S) (a_del_tree (s_tree S) (f_host fr) p m) (s_post S), OOk)
+      | Pre =>
+        match parse_domain re_ok (f_host fr) with
+        | DErr => (S, OErrDomain)
+        | DOk d => let '(l, b) := remove_flat (s_pre S) d p m in
+                   (mkast l (s_tree S) (s_post S), if b then OOk else OErrRemove)
+        end
+      | Post =>
+        match parse_domain re_ok (f_host fr) with
+        | DErr => (S, OErrDomain)
+        | DOk d => let '(l, b) := remove_flat (s_post S) d p m in
+                   (mkast (s_pre S) (s_tree S) l, if b then OOk else OErrRemove)
+        end
+      end
+    end.
+
+  (** the rules consulted for a host: its own leaf, else the wild-card leaf
+      replacing its left-most label *)
+  Definition a_rules (S : astate) (h : bytes) : leafv :=
+    match nonempty (s_tree S h) with Some l => l | None => s_tree S (wild_of h) end.
+
+  Definition a_lookup (S : astate) (h path m : bytes) : option route :=
+    match scan_flat re_match (s_pre S) h path m with
+    | Some r => Some r
+    | None =>
+      match select_loop re_match (a_rules S h) path m (0, 0, 0)%nat None with
+      | Some r => Some r
+      | None => scan_flat re_match (s_post S) h path m
+      end
+    end.
+
+  Definition tree_inv (t : trie leafv) (T : bytes -> leafv) : Prop :=
+    forall k, good_key k -> option_map snd (getk leafv re_match t k) = nonempty (T k).
+
+  Definition refines (rt : router) (S : astate) : Prop :=
+    pre rt = s_pre S /\ post rt = s_post S /\ wf leafv (tree rt) /\ tree_inv (tree rt) (s_tree S).
+
+  Lemma refines_empty : refines empty_router empty_astate.
+  Proof.
+    split; [reflexivity|]. split; [reflexivity|]. split; [apply wf_root|].
+    intros k G. cbn [empty_router tree empty_astate s_tree].
+    rewrite getk_cget by (try assumption; apply wf_root). rewrite cget_root by (apply canon_good; exact G). reflexivity.
+  Qed.
+
+  Lemma nonempty_app l e : nonempty (l ++ [e]) = Some (l ++ [e]).
+  Proof. destruct l; reflexivity. Qed.
+
+  Lemma add_tree_refines t T host p m r :
+    wf leafv t -> tree_inv t T -> good_key host ->
+    let '(t', b) := add_tree_rule re_ok re_match t host p m r in
+    let '(T', b') := a_add_tree T host p m r in
+    b = b' /\ wf leafv t' /\ tree_inv t' T'.
+  Proof.
+    intros W I G. unfold add_tree_rule, a_add_tree.
+    pose proof (I host G) as Ih. unfold getk in Ih.
+    destruct (lookup_mut re_match t host false) as [[k0 paths]|] eqn:EL; cbn [option_map snd] in Ih.
+    - assert (ET : T host = paths).
+      { unfold nonempty in Ih. destruct (is_nil (T host)); [discriminate|]. congruence. }
+      rewrite ET. destruct (existsb (same_leaf p m) paths); [auto|].
+      split; [reflexivity|]. split; [apply wf_modify_k; assumption|].
+      intros k Gk. unfold upd. destruct (beq k host) eqn:E.
+      + apply beq_eq in E; subst k. rewrite getk_modify_same by assumption.
+        unfold getk. rewrite EL. cbn [option_map fst snd]. rewrite nonempty_app. reflexivity.
+      + apply beq_neq in E. rewrite getk_modify_other by (auto; congruence). apply I; exact Gk.
+    - assert (ET : T host = []).
+      { unfold nonempty in Ih. destruct (T host); [reflexivity|discriminate]. }
+      rewrite ET. cbn [existsb app].
+      pose proof (insert_ok_absent leafv re_ok re_match t host [(p, m, r)] G W EL) as OK.
+      pose proof (wf_insert_k leafv re_ok t host [(p, m, r)] G W) as W'.
+      destruct (insert re_ok t host [(p, m, r)]) as [t' res] eqn:EI. cbn [snd fst] in *. subst res.
+      split; [reflexivity|]. split; [exact W'|].
+      intros k Gk. unfold upd. destruct (beq k host) eqn:E.
+      + apply beq_eq in E; subst k.
+        rewrite (getk_insert_same leafv re_ok re_match t host [(p, m, r)] t' G W EI). reflexivity.
+      + apply beq_neq in E.
+        pose proof (getk_insert_other leafv re_ok re_match t host k [(p, m, r)] G Gk ltac:(congruence) W) as O.
+        rewrite EI in O. cbn [fst] in O. rewrite O. apply I; exact Gk.
+  Qed.
+
+  Lemma del_tree_refines t T host p m :
+    wf leafv t -> tree_inv t T -> good_key host ->
+    wf leafv (remove_tree_rule re_match t host p m) /\
+    tree_inv (remove_tree_rule re_match t host p m) (a_del_tree T host p m).
+  Proof.
+    intros W I G. unfold remove_tree_rule, a_del_tree.
+    pose proof (I host G) as Ih. unfold getk in Ih.
+    destruct (lookup_mut re_match t host false) as [[k0 paths]|] eqn:EL; cbn [option_map snd] in Ih.
+    - assert (ET : T host = paths).
+      { unfold nonempty in Ih. destruct (is_nil (T host)); [discriminate|]. congruence. }
+      rewrite ET. set (keep := filter (fun e => negb (same_leaf p m e)) paths).
+      set (t1 := modify_mut re_match t host false (fun _ => keep)).
+      assert (W1 : wf leafv t1) by (apply wf_modify_k; assumption).
+      destruct (is_nil keep) eqn:EK.
+      + split; [apply wf_remove_k; assumption|].
+        intros k Gk. unfold upd. destruct (beq k host) eqn:E.
+        * apply beq_eq in E; subst k. rewrite getk_remove_same by assumption.
+          unfold nonempty. rewrite EK. reflexivity.
+        * apply beq_neq in E. rewrite getk_remove_other by (auto; congruence).
+          unfold t1. rewrite getk_modify_other by (auto; congruence). apply I; exact Gk.
+      + split; [exact W1|].
+        intros k Gk. unfold upd. destruct (beq k host) eqn:E.
+        * apply beq_eq in E; subst k. unfold t1. rewrite getk_modify_same by assumption.
+          unfold getk. rewrite EL. cbn [option_map fst snd]. unfold nonempty. rewrite EK. reflexivity.
+        * apply beq_neq in E. unfold t1. rewrite getk_modify_other by (auto; congruence). apply I; exact Gk.
+    - assert (ET : T host = []).
+      { unfold nonempty in Ih. destruct (T host); [reflexivity|discriminate]. }
+      split; [exact W|]. intros k Gk. unfold upd. destruct (beq k host) eqn:E.
+      + apply beq_eq in E; subst k. rewrite ET. cbn [filter]. rewrite I by exact Gk. rewrite ET. reflexivity.
+      + apply I; exact Gk.
+  Qed.
+
+  (** tree frontends of a history are on plain, storable hostnames *)
+  Definition plain_front (fr : frontend) : Prop :=
+    match f_pos fr with Tree => good_key (f_host fr) | _ => True end.
+
+  Lemma add_refines rt S fr :
+    refines rt S -> plain_front fr ->
+    refines (fst (add_front re_ok re_match rt fr)) (fst (a_add S fr)) /\
+    snd (add_front re_ok re_match rt fr) = snd (a_add S fr).
+  Proof.
+    intros (E1 & E2 & W & I) PF. unfold add_front, a_add, plain_front in *.
+    destruct (parse_path re_ok (f_pkind fr) (f_pval fr)) as [p|]; [|cbn [fst snd]; unfold refines; auto 10].
+    destruct (parse_domain re_ok (f_host fr)) as [d|]; [|cbn [fst snd]; unfold refines; auto 10].
+    destruct (f_pos fr).
+    - rewrite <- E1. destruct (add_flat (pre rt) d p (f_method fr) (mk_route fr)) as [l b].
+      cbn [fst snd]. unfold refines; cbn [pre post tree s_pre s_post s_tree]; auto 10.
+    - rewrite <- E2. destruct (add_flat (post rt) d p (f_method fr) (mk_route fr)) as [l b].
+      cbn [fst snd]. unfold refines; cbn [pre post tree s_pre s_post s_tree]; auto 10.
+    - pose proof (add_tree_refines (tree rt) (s_tree S) (f_host fr) p (f_method fr) (mk_route fr) W I PF) as R.
+      destruct (add_tree_rule re_ok re_match (tree rt) (f_host fr) p (f_method fr) (mk_route fr)) as [t' b].
+      destruct (a_add_tree (s_tree S) (f_host fr) p (f_method fr) (mk_route fr)) as [T' b'].
+      destruct R as (-> & W' & I'). cbn [fst snd]. unfold refines; cbn [pre post tree s_pre s_post s_tree]; auto 10.
+  Qed.
+
+  Lemma del_refines rt S fr :
+    refines rt S -> plain_front fr ->
+    refines (fst (remove_front re_ok re_match rt fr)) (fst (a_del S fr)) /\
+    snd (remove_front re_ok re_match rt fr) = snd (a_del S fr).
+  Proof.
+    intros (E1 & E2 & W & I) PF. unfold remove_front, a_del, plain_front in *.
+    destruct (parse_path re_ok (f_pkind fr) (f_pval fr)) as [p|]; [|cbn [fst snd]; unfold refines; auto 10].
+    destruct (f_pos fr).
+    - destruct (parse_domain re_ok (f_host fr)) as [d|]; [|cbn [fst snd]; unfold refines; auto 10].
+      rewrite <- E1. destruct (remove_flat (pre rt) d p (f_method fr)) as [l b]. cbn [fst snd]. unfold refines; cbn [pre post tree s_pre s_post s_tree]; auto 10.
+    - destruct (parse_domain re_ok (f_host fr)) as [d|]; [|cbn [fst snd]; unfold refines; auto 10].
+      rewrite <- E2. destruct (remove_flat (post rt) d p (f_method fr)) as [l b]. cbn [fst snd]. unfold refines; cbn [pre post tree s_pre s_post s_tree]; auto 10.
+    - destruct (del_tree_refines (tree rt) (s_tree S) (f_host fr) p (f_method fr) W I PF) as [W' I'].
+      cbn [fst snd]. unfold refines; cbn [pre post tree s_pre s_post s_tree]; auto 10.
+  Qed.
+
+  (** histories *)
+  Inductive op := OAdd (fr : frontend) | ODel (fr : frontend).
+  Definition op_front (o : op) : frontend := match o with OAdd f | ODel f => f end.
+
+  Definition step_rt (rt : router) (o : op) : router :=
+    match o with
+    | OAdd f => fst (add_front re_ok re_match rt f)
+    | ODel f => fst (remove_front re_ok re_match rt f)
+    end.
+  Definition step_a (S : astate) (o : op) : astate :=
+    match o with
+    | OAdd f => fst (a_add S f)
+    | ODel f => fst (a_del S f)
+    end.
+  Definition run (h : list op) : router := fold_left step_rt h empty_router.
+  Definition config (h : list op) : astate := fold_left step_a h empty_astate.
+  Definition plain_history (h : list op) : Prop := Forall (fun o => plain_front (op_front o)) h.
+
+  Lemma run_refines_gen h : forall rt S,
+      refines rt S -> plain_history h -> refines (fold_left step_rt h rt) (fold_left step_a h S).
+  Proof.
+    induction h as [|o h IH]; intros rt S R P; cbn [fold_left]; [exact R|].
+    inversion P as [|? ? Po Ph]; subst. apply IH; [|exact Ph].
+    destruct o as [f|f]; cbn [step_rt step_a op_front] in *.
+    - apply add_refines; assumption.
+    - apply del_refines; assumption.
+  Qed.
+
+  Lemma run_refines h : plain_history h -> refines (run h) (config h).
+  Proof. apply run_refines_gen. apply refines_empty. Qed.
+
+  (** lookups only see the configuration *)
+  Lemma lookup_refines rt S h path m :
+    refines rt S -> good_key h -> label_of h <> [STAR] ->
+    route_lookup re_match rt h path m = a_lookup S h path m.
+  Proof.
+    intros (E1 & E2 & W & I) G NS. unfold route_lookup, a_lookup. rewrite E1, E2.
+    destruct (scan_flat re_match (s_pre S) h path m); [reflexivity|].
+    rewrite (lookup_getk leafv re_match (tree rt) h G NS W).
+    assert (GW : good_key (wild_of h)).
+    { apply good_key_wild. apply (good_key_parts h G). }
+    pose proof (I h G) as Ih. pose proof (I (wild_of h) GW) as Iw.
+    unfold a_rules.
+    destruct (getk leafv re_match (tree rt) h) as [[k0 rules]|]; cbn [option_map snd] in Ih.
+    - rewrite <- Ih. reflexivity.
+    - rewrite <- Ih.
+      destruct (getk leafv re_match (tree rt) (wild_of h)) as [[k0 rules]|]; cbn [option_map snd] in Iw.
+      + unfold nonempty in Iw. destruct (is_nil (s_tree S (wild_of h))); [discriminate|].
+        inversion Iw; subst. reflexivity.
+      + unfold nonempty in Iw. destruct (s_tree S (wild_of h)); [|discriminate]. reflexivity.
+  Qed.
+End Refine.
+
+(** ** The documented precedence, stated on the configuration *)
+Section Spec.
+  Variable re_ok : bytes -> bool.
+  Variable re_match : bytes -> bytes -> bool.
+
+  Definition flat_matches (e : drule * prule * mrule * route) (h path m : bytes) : bool :=
+    let '(d, p, mr, _) := e in
+    drule_matches re_match d h && pres_some (prule_matches re_match p path) && mres_some (mrule_matches mr m).
+  Definition flat_route (e : drule * prule * mrule * route) : route := let '(_, _, _, r) := e in r.
+
+  (** pre / post: the first matching rule, in list order *)
+  Lemma scan_flat_first l h path m :
+    match scan_flat re_match l h path m with
+    | Some r => exists l1 e l2, l = l1 ++ e :: l2 /\ flat_matches e h path m = true /\ flat_route e = r /\
+                                forall e', In e' l1 -> flat_matches e' h path m = false
+    | None => forall e, In e l -> flat_matches e h path m = false
+    end.
+  Proof.
+    induction l as [|[[[d p] mr] r] l IH]; cbn [scan_flat]; [intros e []|].
+    destruct (drule_matches re_match d h && pres_some (prule_matches re_match p path) &&
+              mres_some (mrule_matches mr m)) eqn:E.
+    - exists [], (d, p, mr, r), l. repeat split; auto. intros e' [].
+    - destruct (scan_flat re_match l h path m) as [r'|].
+      + destruct IH as (l1 & e & l2 & -> & M & R & F). exists ((d, p, mr, r) :: l1), e, l2.
+        repeat split; auto. intros e' [<-|Hin]; auto.
+      + intros e [<-|Hin]; auto.
+  Qed.
+
+  (** [o] is the documented answer for the request on configuration [S] *)
+  Definition documented_choice (S : astate) (h path m : bytes) (o : option route) : Prop :=
+    match scan_flat re_match (s_pre S) h path m with
+    | Some r => o = Some r
+    | None =>
+      exists ot, is_best re_match path m (a_rules S h) ot /\
+                 match ot with
+                 | Some r => o = Some r
+                 | None => o = scan_flat re_match (s_post S) h path m
+                 end
+    end.
+
+  Lemma a_lookup_documented S h path m : documented_choice S h path m (a_lookup re_match S h path m).
+  Proof.
+    unfold documented_choice, a_lookup. destruct (scan_flat re_match (s_pre S) h path m); [reflexivity|].
+    exists (select_loop re_match (a_rules S h) path m (0, 0, 0)%nat None). split; [apply select_is_best|].
+    destruct (select_loop re_match (a_rules S h) path m (0, 0, 0)%nat None); reflexivity.
+  Qed.
+
+  Theorem lookup_refines_spec_lemma hist h path m :
+    plain_history hist -> good_key h -> label_of h <> [STAR] ->
+    documented_choice (config re_ok hist) h path m (route_lookup re_match (run re_ok re_match hist) h path m).
+  Proof.
+    intros P G NS. rewrite (lookup_refines re_match _ _ h path m (run_refines re_ok re_match hist P) G NS).
+    apply a_lookup_documented.
+  Qed.
+
+  (** same members *)
+  Definition same_members (l l' : leafv) : Prop := forall e, In e l <-> In e l'.
+
+  Lemma same_members_nonempty l l' : same_members l l' -> is_nil l = is_nil l'.
+  Proof.
+    intros E. destruct l as [|a l], l' as [|b l']; cbn [is_nil]; auto.
+    - exfalso. apply (proj2 (E b)). left; reflexivity.
+    - exfalso. apply (proj1 (E a)). left; reflexivity.
+  Qed.
+
+  Lemma a_rules_members S S' h :
+    (forall k, same_members (s_tree S k) (s_tree S' k)) -> same_members (a_rules S h) (a_rules S' h).
+  Proof.
+    intros E. unfold a_rules, nonempty. rewrite (same_members_nonempty _ _ (E h)).
+    destruct (is_nil (s_tree S' h)); apply E.
+  Qed.
+
+  Lemma order_independent_lemma h1 h2 h path m :
+    plain_history h1 -> plain_history h2 -> good_key h -> label_of h <> [STAR] ->
+    s_pre (config re_ok h1) = s_pre (config re_ok h2) ->
+    s_post (config re_ok h1) = s_post (config re_ok h2) ->
+    (forall k, same_members (s_tree (config re_ok h1) k) (s_tree (config re_ok h2) k)) ->
+    no_ties re_match path m (a_rules (config re_ok h1) h) ->
+    route_lookup re_match (run re_ok re_match h1) h path m = route_lookup re_match (run re_ok re_match h2) h path m.
+  Proof.
+    intros P1 P2 G NS E1 E2 ET NT.
+    rewrite (lookup_refines re_match _ _ h path m (run_refines re_ok re_match h1 P1) G NS).
+    rewrite (lookup_refines re_match _ _ h path m (run_refines re_ok re_match h2 P2) G NS).
+    unfold a_lookup. rewrite E1, E2.
+    rewrite (select_order_independent re_match path m (a_rules (config re_ok h1) h) (a_rules (config re_ok h2) h));
+      [reflexivity|apply a_rules_members; exact ET|exact NT].
+  Qed.
+
+  (** *** a removed frontend is no longer in the configuration *)
+  Lemma config_snoc hist o : config re_ok (hist ++ [o]) = step_a re_ok (config re_ok hist) o.
+  Proof. unfold config. rewrite fold_left_app. reflexivity. Qed.
+
+  Lemma removed_from_tree hist fr p e :
+    f_pos fr = Tree -> parse_path re_ok (f_pkind fr) (f_pval fr) = Some p ->
+    In e (s_tree (config re_ok (hist ++ [ODel fr])) (f_host fr)) -> same_leaf p (f_method fr) e = false.
+  Proof.
+    intros EP PP. rewrite config_snoc. cbn [step_a]. unfold a_del. rewrite PP, EP. cbn [fst s_tree].
+    unfold a_del_tree, upd. rewrite beq_refl. intros H. apply filter_In in H. destruct H as [_ H].
+    apply negb_true_iff in H. exact H.
+  Qed.
+
+  (** every answer is the decision of a rule of the configuration *)
+  Lemma scan_flat_in l h path m r :
+    scan_flat re_match l h path m = Some r -> exists e, In e l /\ flat_route e = r /\ flat_matches e h path m = true.
+  Proof.
+    intros H. pose proof (scan_flat_first l h path m) as F. rewrite H in F.
+    destruct F as (l1 & e & l2 & -> & M & R & _). exists e. split; [apply in_or_app; right; left; reflexivity|auto].
+  Qed.
+
+  Lemma answers_come_from_config S h path m r :
+    a_lookup re_match S h path m = Some r ->
+    (exists e, In e (s_pre S) /\ flat_route e = r /\ flat_matches e h path m = true) \/
+    (exists e, In e (a_rules S h) /\ rt_of e = r /\ rr re_match path m e <> None) \/
+    (exists e, In e (s_post S) /\ flat_route e = r /\ flat_matches e h path m = true).
+  Proof.
+    unfold a_lookup. intros H.
+    destruct (scan_flat re_match (s_pre S) h path m) as [r0|] eqn:E0.
+    - inversion H; subst. left. apply scan_flat_in; exact E0.
+    - pose proof (select_is_best re_match path m (a_rules S h)) as B.
+      destruct (select_loop re_match (a_rules S h) path m (0, 0, 0)%nat None) as [r1|].
+      + inversion H; subst. right; left. cbn [is_best] in B. destruct B as (e & rk & I & R & K & _).
+        exists e. repeat split; auto. congruence.
+      + right; right. apply scan_flat_in; exact H.
+  Qed.
+
+  (** *** frontends that do not match the request *)
+  Lemma select_app_nonmatching path m l e best matched :
+    rr re_match path m e = None ->
+    select_loop re_match (l ++ [e]) path m best matched = select_loop re_match l path m best matched.
+  Proof.
+    intros N. revert best matched. induction l as [|[[p mr] r] l IH]; intros best matched; cbn [app select_loop].
+    - destruct e as [[p mr] r]. cbn [rr] in N. rewrite N. reflexivity.
+    - destruct (rule_rank re_match p mr path m); [destruct (negb (is_some matched) || rank_ltb best r0)|]; apply IH.
+  Qed.
+
+  Lemma select_filter_nonmatching path m (f : prule * mrule * route -> bool) l :
+    (forall e, In e l -> f e = false -> rr re_match path m e = None) ->
+    forall best matched,
+      select_loop re_match (filter f l) path m best matched = select_loop re_match l path m best matched.
+  Proof.
+    induction l as [|[[p mr] r] l IH]; intros H best matched; cbn [filter select_loop]; [reflexivity|].
+    destruct (f (p, mr, r)) eqn:Ef; cbn [select_loop].
+    - destruct (rule_rank re_match p mr path m); [destruct (negb (is_some matched) || rank_ltb best r0)|];
+        apply IH; intros e Hin; apply H; right; exact Hin.
+    - pose proof (H (p, mr, r) (or_introl eq_refl) Ef) as N. cbn [rr] in N. rewrite N.
+      apply IH; intros e Hin; apply H; right; exact Hin.
+  Qed.
+End Spec.
+
+Section Unrelated.
+  Variable re_ok : bytes -> bool.
+  Variable re_match : bytes -> bytes -> bool.
+
+  Definition sel (path m : bytes) (l : leafv) : option route :=
+    select_loop re_match l path m (0, 0, 0)%nat None.
+
+  Definition with_tree (S : astate) (T : bytes -> leafv) : astate := mkast (s_pre S) T (s_post S).
+
+  Lemma a_lookup_upd S host newl h path m :
+    sel path m newl = sel path m (s_tree S host) ->
+    (host = h -> is_nil newl = is_nil (s_tree S h)) ->
+    a_lookup re_match (with_tree S (upd (s_tree S) host newl)) h path m = a_lookup re_match S h path m.
+  Proof.
+    intros ES EN. unfold a_lookup, with_tree; cbn [s_pre s_post].
+    destruct (scan_flat re_match (s_pre S) h path m); [reflexivity|].
+    assert (E : sel path m (a_rules (mkast (s_pre S) (upd (s_tree S) host newl) (s_post S)) h)
+                = sel path m (a_rules S h)); [|unfold sel in E; rewrite E; reflexivity].
+    unfold a_rules, nonempty, upd; cbn [s_tree].
+    destruct (beq h host) eqn:E1.
+    - apply beq_eq in E1; subst host. rewrite (EN eq_refl).
+      destruct (is_nil (s_tree S h)) eqn:EE; [|exact ES].
+      destruct (beq (wild_of h) h) eqn:E2; [|reflexivity].
+      apply beq_eq in E2. rewrite E2. exact ES.
+    - destruct (is_nil (s_tree S h)); [|reflexivity].
+      destruct (beq (wild_of h) host) eqn:E2; [|reflexivity].
+      apply beq_eq in E2. rewrite E2. exact ES.
+  Qed.
+
+  Lemma a_lookup_upd_far S host newl h path m :
+    host <> h -> host <> wild_of h ->
+    a_lookup re_match (with_tree S (upd (s_tree S) host newl)) h path m = a_lookup re_match S h path m.
+  Proof.
+    intros N1 N2. unfold a_lookup, with_tree, a_rules, nonempty, upd; cbn [s_pre s_post s_tree].
+    assert (beq h host = false) as -> by (apply beq_neq; congruence).
+    assert (beq (wild_of h) host = false) as -> by (apply beq_neq; congruence).
+    reflexivity.
+  Qed.
+
+  (** An operation on a tree frontend that does not match the request leaves
+      the request's route unchanged, as long as it does not create or delete
+      the request host's own leaf (see [unrelated_refuted_lemma]). *)
+  Lemma unrelated_tree_op S o h path m :
+    let fr := op_front o in
+    f_pos fr = Tree ->
+    ((f_host fr <> h /\ f_host fr <> wild_of h) \/
+     (forall p, parse_path re_ok (f_pkind fr) (f_pval fr) = Some p ->
+                rule_rank re_match p (f_method fr) path m = None)) ->
+    (f_host fr = h -> is_nil (s_tree (step_a re_ok S o) h) = is_nil (s_tree S h)) ->
+    a_lookup re_match (step_a re_ok S o) h path m = a_lookup re_match S h path m.
+  Proof.
+    intros fr EP NM NC. subst fr.
+    destruct o as [fr|fr]; cbn [op_front step_a] in *.
+    - unfold a_add in *. destruct (parse_path re_ok (f_pkind fr) (f_pval fr)) as [p|] eqn:PP; [|reflexivity].
+      destruct (parse_domain re_ok (f_host fr)) as [d|]; [|reflexivity]. rewrite EP in *.
+      unfold a_add_tree in *. destruct (existsb (same_leaf p (f_method fr)) (s_tree S (f_host fr))); [reflexivity|].
+      cbn [fst s_tree] in *. change (mkast (s_pre S) ?T (s_post S)) with (with_tree S T).
+      destruct NM as [[N1 N2]|NM]; [apply a_lookup_upd_far; assumption|].
+      apply a_lookup_upd.
+      + unfold sel. apply select_app_nonmatching. cbn [rr]. apply NM; reflexivity.
+      + intros E. specialize (NC E). unfold upd in NC. rewrite <- E, beq_refl in NC. rewrite <- E. exact NC.
+    - unfold a_del in *. destruct (parse_path re_ok (f_pkind fr) (f_pval fr)) as [p|] eqn:PP; [|reflexivity].
+      rewrite EP in *. cbn [fst s_tree] in *. unfold a_del_tree in *.
+      change (mkast (s_pre S) ?T (s_post S)) with (with_tree S T).
+      destruct NM as [[N1 N2]|NM]; [apply a_lookup_upd_far; assumption|].
+      apply a_lookup_upd.
+      + unfold sel. apply select_filter_nonmatching. intros [[p' m'] r'] _ F.
+        apply negb_false_iff in F. cbn [same_leaf] in F. apply andb_true_iff in F. destruct F as [F1 F2].
+        apply prule_eqb_eq in F1. apply mrule_eqb_eq in F2. subst. cbn [rr]. apply NM; reflexivity.
+      + intros E. specialize (NC E). unfold upd in NC. rewrite <- E, beq_refl in NC. rewrite <- E. exact NC.
+  Qed.
+End Unrelated.
+
+(** the general statement is false: host shadowing (known finding) *)
+Definition w_star_a_com : bytes := [42; 46; 97; 46; 99; 111; 109]%N.         (* "*.a.com" *)
+Definition w_x_a_com : bytes := [120; 46; 97; 46; 99; 111; 109]%N.          (* "x.a.com" *)
+Definition w_front (host pval cl : bytes) : frontend :=
+  mkfront Tree host 0%Z pval None (Some cl) None None.
+
+Lemma unrelated_refuted_lemma :
+  exists hist fr h path m,
+    plain_history (hist ++ [OAdd fr]) /\ f_pos fr = Tree /\
+    (forall p, parse_path (fun _ => true) (f_pkind fr) (f_pval fr) = Some p ->
+               rule_rank (fun _ _ => false) p (f_method fr) path m = None) /\
+    route_lookup (fun _ _ => false) (run (fun _ => true) (fun _ _ => false) (hist ++ [OAdd fr])) h path m
+    <> route_lookup (fun _ _ => false) (run (fun _ => true) (fun _ _ => false) hist) h path m.
+Proof.
+  exists [OAdd (w_front w_star_a_com [47]%N [48]%N)], (w_front w_x_a_com [47; 97]%N [49]%N),
+         w_x_a_com, [47; 98]%N, [71]%N.
+  split; [|split; [reflexivity|split]].
+  - repeat constructor; cbn; discriminate.
+  - intros p H. vm_compute in H. inversion H; subst. vm_compute. reflexivity.
+  - vm_compute. discriminate.
+Qed.
+
+(** ** history-level statements *)
+Section History.
+  Variable re_ok : bytes -> bool.
+  Variable re_match : bytes -> bytes -> bool.
+  Notation run := (run re_ok re_match).
+  Notation config := (config re_ok).
+
+  Lemma plain_history_app h1 h2 : plain_history (h1 ++ h2) -> plain_history h1 /\ plain_history h2.
+  Proof. unfold plain_history. intros H. apply Forall_app in H. exact H. Qed.
+
+  Lemma answers_from_configuration hist h path m r :
+    plain_history hist -> good_key h -> label_of h <> [STAR] ->
+    route_lookup re_match (run hist) h path m = Some r ->
+    (exists e, In e (s_pre (config hist)) /\ flat_route e = r /\ flat_matches re_match e h path m = true) \/
+    (exists e, In e (a_rules (config hist) h) /\ rt_of e = r /\ rr re_match path m e <> None) \/
+    (exists e, In e (s_post (config hist)) /\ flat_route e = r /\ flat_matches re_match e h path m = true).
+  Proof.
+    intros P G NS H. rewrite (lookup_refines re_match _ _ h path m (run_refines re_ok re_match hist P) G NS) in H.
+    apply answers_come_from_config; exact H.
+  Qed.
+
+  Lemma unrelated_history hist o h path m :
+    let fr := op_front o in
+    plain_history (hist ++ [o]) -> good_key h -> label_of h <> [STAR] ->
+    f_pos fr = Tree ->
+    ((f_host fr <> h /\ f_host fr <> wild_of h) \/
+     (forall p, parse_path re_ok (f_pkind fr) (f_pval fr) = Some p ->
+                rule_rank re_match p (f_method fr) path m = None)) ->
+    (f_host fr = h -> is_nil (s_tree (config (hist ++ [o])) h) = is_nil (s_tree (config hist) h)) ->
+    route_lookup re_match (run (hist ++ [o])) h path m = route_lookup re_match (run hist) h path m.
+  Proof.
+    intros fr P G NS EP NM NC. destruct (plain_history_app _ _ P) as [P1 _].
+    rewrite (lookup_refines re_match _ _ h path m (run_refines re_ok re_match _ P) G NS).
+    rewrite (lookup_refines re_match _ _ h path m (run_refines re_ok re_match _ P1) G NS).
+    rewrite config_snoc in *. apply unrelated_tree_op; assumption.
+  Qed.
+End History.
+
+(** regex-segment hostnames: insertion order matters (known finding) *)
+Definition w_re_a_com : bytes := [47; 114; 47; 46; 97; 46; 99; 111; 109]%N.              (* "/r/.a.com" *)
+Definition w_w_re_a_com : bytes := [119; 46; 47; 114; 47; 46; 97; 46; 99; 111; 109]%N.   (* "w./r/.a.com" *)
+Definition w_xyz_a_com : bytes := [120; 121; 122; 46; 97; 46; 99; 111; 109]%N.          (* "xyz.a.com" *)
+
+Lemma regex_hosts_order_refuted_lemma :
+  exists f1 f2 h path m,
+    route_lookup (fun _ _ => true) (run (fun _ => true) (fun _ _ => true) [OAdd f1; OAdd f2]) h path m
+    <> route_lookup (fun _ _ => true) (run (fun _ => true) (fun _ _ => true) [OAdd f2; OAdd f1]) h path m.
+Proof.
+  exists (w_front w_w_re_a_com [47]%N [48]%N), (w_front w_re_a_com [47]%N [49]%N), w_xyz_a_com, [47]%N, [71]%N.
+  vm_compute. discriminate.
+Qed.
